@@ -281,6 +281,8 @@ pub fn gen_file_c(rng: &mut Rng, l: &L, opts: &Opts, patterns: &mut Vec<String>,
     // distribute tags over comments: each comment takes 1 (mostly) or 2-3 consecutive tags
     let nl = if opts.crlf { "\r\n" } else { "\n" };
     let mut text = String::from(l.header);
+    // one file in twelve (of the languages without a mandatory first line) starts with a UTF-8 byte order mark
+    if l.header.is_empty() && !["md", "yaml", "toml", "Makefile", "go.mod"].contains(&l.exts[0]) && rng.chance(1, 12) { text.push('\u{feff}'); }
     let mut i = 0;
     let put_code = |rng: &mut Rng, text: &mut String, inside: bool| {
         let k = rng.below(3);
